@@ -35,6 +35,12 @@ class AutoTrace(Trace):
         if exc or op in ('gc', 'shutdown'):
             gc.collect()    # Functions caught in exception/traceback cycles
         self.ext = registry(self.mgr)
+        # object identity: the node each live handle (slot) points to, before and after
+        hs = sorted([k, int(f.node)] for k, f in self.slots.items() if f.node is not None)
+        extra = dict(extra or {})
+        extra['handles_pre'] = getattr(self, '_handles', [])
+        extra['handles'] = hs
+        self._handles = hs
         return super()._emit(op, a, ret, exc, pre=pre, expect_ok=expect_ok,
                              extra=extra)
 
@@ -105,7 +111,7 @@ def autoref_history(tid, seed, nvars, steps, dyn=False):
                 tr.do('var', dict(name=nm), lambda: m.var(nm))
             elif c < 0.30:
                 f, g = pick(tr, rng), pick(tr, rng)
-                k = rng.randrange(7)
+                k = rng.randrange(10)
                 if k == 0:
                     tr.do('apply', dict(op='and', args=[int(f), int(g)]), lambda: f & g)
                 elif k == 1:
@@ -116,6 +122,26 @@ def autoref_history(tid, seed, nvars, steps, dyn=False):
                     tr.do('apply', dict(op='implies', args=[int(f), int(g)]), lambda: f.implies(g))
                 elif k == 4:
                     tr.do('apply', dict(op='equiv', args=[int(f), int(g)]), lambda: f.equiv(g))
+                elif k == 5:
+                    # augmented assignment on a name that ALIASES a live handle:
+                    # the handle in the slot must keep its node
+                    def aug_and():
+                        x = f
+                        x &= g
+                        return x
+                    tr.do('apply', dict(op='and', args=[int(f), int(g)]), aug_and)
+                elif k == 6:
+                    def aug_or():
+                        x = f
+                        x |= g
+                        return x
+                    tr.do('apply', dict(op='or', args=[int(f), int(g)]), aug_or)
+                elif k == 7:
+                    def aug_xor():
+                        x = f
+                        x ^= g
+                        return x
+                    tr.do('apply', dict(op='xor', args=[int(f), int(g)]), aug_xor)
                 else:
                     sym = rng.choice(history.BIN_OPS)
                     tr.do('apply', dict(op=sym, args=[int(f), int(g)]), lambda: m.apply(sym, f, g))
